@@ -19,8 +19,14 @@ def run(op, a):
         m2.wit = witness_from_val(a[1])
         # cached identifiers: ask twice on the immutable object
         t.GetTxid(), t.GetHash()
-        return [t.GetTxid(), t.GetHash(), m.GetTxid(), m.GetHash(), m2.GetTxid(),
-                1 if (t == m and m == t and not (t != m)) else 0, 1 if hash(t) == hash(m) else 0]
+        res = [t.GetTxid(), t.GetHash(), m.GetTxid(), m.GetHash(), m2.GetTxid(),
+               1 if (t == m and m == t and not (t != m)) else 0, 1 if hash(t) == hash(m) else 0]
+        # identifiers of a mutable object follow its current field values: ask, edit, ask again
+        m.nLockTime = (m.nLockTime + 1) % (1 << 32)
+        res += [m.GetTxid(), m.GetHash()]
+        m.vin[0].nSequence = (m.vin[0].nSequence + 1) % (1 << 32)
+        res += [m.GetTxid()]
+        return res
     if op == 2:
         h, txs = a[0]
         b1 = make_block(h, [tx_from_val(t) for t in txs])
